@@ -110,6 +110,30 @@ def isVisible (all : List VField) (f : VField) : Bool :=
 def visibleFields (fields : List (FieldE GoTypeE)) : List VField :=
   (allFields [] 0 fields).filter (isVisible (allFields [] 0 fields))
 
+/-! #### reflect's own algorithm, for comparison
+
+  `reflect.VisibleFields` is implemented by a walker that keeps, per name, the index of the entry that currently wins
+  (`byName`), clears the name of an entry that loses and finally drops the cleared entries.  `visibleFieldsWalk` is that
+  algorithm over the same walk; `visibleFields` above is its specification ("accessible directly with FieldByName").
+  C16 compares the two on examples with shadowing, equal-depth ambiguity and three-way conflicts. -/
+
+/-- one step of `visibleFieldsWalker.walk` for the field `f`: the state is the list of entries appended so far, each
+    with its "name cleared" flag -/
+def walkStep (acc : List (VField × Bool)) (f : VField) : List (VField × Bool) :=
+  -- oldIndex, ok := w.byName[f.Name]: the entry appended last under that name
+  match (acc.zipIdx.filter fun e => e.1.1.goName == f.goName).getLast? with
+  | none => acc ++ [(f, false)]
+  | some (old, k) =>
+    if f.index.length == old.1.index.length then
+      acc.set k (old.1, true)                       -- same depth: cancel one another out, do not add
+    else if f.index.length < old.1.index.length then
+      acc.set k (old.1, true) ++ [(f, false)]       -- the old field loses because it's deeper
+    else acc                                        -- the old field wins because it's shallower
+
+/-- `reflect.VisibleFields` as implemented: walk, then remove the hidden fields -/
+def visibleFieldsWalk (fields : List (FieldE GoTypeE)) : List VField :=
+  (((allFields [] 0 fields).foldl walkStep []).filter fun e => !e.2).map (·.1)
+
 /-! ### the struct case of `forType` -/
 
 abbrev IRecE := GoTypeE → List String → Store → Res (Option NodeId × Store)
